@@ -65,6 +65,11 @@ Unique(S) == IF Cardinality(S) = 1 THEN CHOOSE x \in S : TRUE ELSE "Unresolved"
 SnTargetG(s) == IF s.gdop THEN "G.dop" ELSE "none"     \* the reference in G's request, as loaded
 SnTargetA(s) == Unique(ViewA(s))          \* the reference in A's request, as loaded
 SnTargetV(s) == Unique(ViewV(s))          \* the reference in V's request; and A's and G's references after re-targeting to V
+\* A has a second functional group G2 as parent (written after G).  G2 defines a DOP m and a request with DOP-SNREF m;
+\* V defines a DOP m of its own exactly when it defines n.  The inheritance graph branches at A: re-targeting to V must
+\* reach the objects of EVERY parent, not only those of the first chain.
+SnTargetG2(s) == "G2.m"                                         \* as loaded
+SnTargetG2Retargeted(s) == IF s.vdop THEN "V.m" ELSE "G2.m"     \* after re-targeting to V
 
 ---------------------------------------------------------------------------
 NoSn == [gdop |-> FALSE, adop |-> FALSE, astruct |-> FALSE, vdop |-> FALSE, ni |-> FALSE]
